@@ -44,9 +44,9 @@ ALL = ['raw', 'qcow2', 'vhd', 'vhdx', 'vmdk', 'vdi', 'qed', 'iso', 'gpt', 'luks'
 GENERIC_POINTS = [4, 6, 32, 64, 108, 512, 592, 1536, 32768, 34816, 196608,
                   196624, 262144]
 CAPS_QUICK = {'own': 52, 'own-vmdk': 34, 'vmdk-foreign': 32, 'foreign': 24,
-              'wrapper': 16}
+              'wrapper': 16, 'wrapper-short': 7}
 CAPS_THOROUGH = {'own': 80, 'own-vmdk': 64, 'vmdk-foreign': 48, 'foreign': 32,
-                 'wrapper': 28}
+                 'wrapper': 28, 'wrapper-short': 14}
 WRAP_BASE = {3, 4, 5, 63, 64, 65, 511, 512, 513, 591, 592, 593}
 
 _IMAGES = []
@@ -236,12 +236,14 @@ def _explore_one(job):
     from vlib.mc import stream as S
     im = _IMAGES[idx]
     data = im.data
-    system = S.WrapperSystem() if sysname == 'wrapper' else S.InspectorSystem(sysname)
+    system = S.make_system(sysname)
     if mode == 'all':
         cuts = list(range(1, len(data)))
     else:
         caps = CAPS_THOROUGH if thorough else CAPS_QUICK
-        if sysname == 'wrapper':
+        if sysname == 'wrapper-short':
+            maxn = caps['wrapper-short']
+        elif sysname == 'wrapper':
             maxn = caps['wrapper']
         elif sysname == im.fmt or (im.fmt == 'poly' and sysname in ('iso', 'qcow2')):
             maxn = caps['own-vmdk'] if sysname == 'vmdk' else caps['own']
@@ -257,7 +259,7 @@ def _explore_one(job):
     # memoryview slices of a re-used read buffer must give the same verdict and
     # leave exactly the stream's bytes in every region
     out['typed'] = []
-    if mode == 'cand' and len(r.verdicts) == 1 and len(data) > 0:
+    if mode == 'cand' and len(r.verdicts) == 1 and len(data) > 0 and sysname != 'wrapper-short':
         (v0, _p), = r.verdicts.items()
         tc = spread(cuts, 6)
         for kind in ('bytearray', 'memoryview'):
@@ -520,7 +522,7 @@ def isolation_pairs(seed):
 def _isolation_job(job):
     sysname, da, db = job
     from vlib.mc import stream as S
-    system = S.WrapperSystem() if sysname == 'wrapper' else S.InspectorSystem(sysname)
+    system = S.make_system(sysname)
     ca = [64, 512] if len(da) < 100000 else [64, 262144]
     cb = [64, 512]
     sa = _solo(system, da, ca)
@@ -567,7 +569,7 @@ def run(ctx):
     _IMAGES = family(ctx)
     jobs = []
     for idx, im in enumerate(_IMAGES):
-        for sysname in ALL + ['wrapper']:
+        for sysname in ALL + ['wrapper', 'wrapper-short']:
             jobs.append((idx, sysname, 'cand', ctx.seed, ctx.thorough))
         # all byte positions as cuts: small streams, bare inspectors
         lim = 1536 if ctx.thorough else 130
@@ -584,6 +586,7 @@ def run(ctx):
     jobs.sort(key=lambda j: -len(_IMAGES[j[0]].data) * (3 if j[1] == 'wrapper' else 1))
     results = par.pmap(_explore_one, jobs)
     verdict_sets = {}
+    witness = {}
     for r in results:
         im = _IMAGES[r['idx']]
         rep.count('states', r['states'])
@@ -599,7 +602,7 @@ def run(ctx):
             rep.caps_hit.append('%s/%s: %s' % (im.name, r['system'], c))
         if r['multi'] or r['ncuts'] >= 2:
             rep.nontrivial('%s/%s/%s' % (im.name, r['system'], r['mode']))
-        sigs = findings.c01_signatures(im.data, r['system'])
+        sigs = findings.c01_signatures(im.data, 'wrapper' if r['system'] == 'wrapper-short' else r['system'])
         base = {'image': pack(im.data), 'image_name': im.name,
                 'system': r['system']}
         for f in r['failures']:
@@ -622,6 +625,8 @@ def run(ctx):
         vs = r['verdicts']
         key = (r['idx'], r['system'])
         verdict_sets.setdefault(key, {})[r['mode']] = {repr(v) for v, _ in vs}
+        if r['mode'] == 'cand' and vs:
+            witness[key] = vs[0][1]
         if len(vs) > 1:
             rep.fail('T1:%s:%s' % (r['system'], im.fmt),
                      {'image': im.name, 'system': r['system'],
@@ -631,6 +636,21 @@ def run(ctx):
                      sigs=sigs)
         elif sigs:
             rep.count('signature_true_but_single_verdict')
+    # how the source hands out the bytes (exact reads / short and empty reads) is chunking too
+    for (idx, sysname), modes in sorted(verdict_sets.items()):
+        if sysname != 'wrapper-short' or (idx, 'wrapper') not in verdict_sets:
+            continue
+        a, b = verdict_sets[(idx, 'wrapper')].get('cand', set()), modes.get('cand', set())
+        rep.count('short_read_comparisons')
+        if len(a) == 1 and len(b) == 1 and a != b:
+            im = _IMAGES[idx]
+            rep.fail('T1:wrapper-short-vs-exact-reads:%s' % im.fmt,
+                     {'image': im.name, 'exact_reads': sorted(a), 'short_reads': sorted(b)},
+                     {'image': pack(im.data), 'image_name': im.name, 'system': 'wrapper-short',
+                      'kind': 'T1x', 'paths': [],
+                      'path_exact': witness.get((idx, 'wrapper'), []),
+                      'path_short': witness.get((idx, 'wrapper-short'), [])},
+                     sigs=findings.c01_signatures(im.data, 'wrapper'))
     # abstraction check: candidate cuts and all positions see the same verdicts
     disagreements = []
     for key, modes in verdict_sets.items():
@@ -665,7 +685,7 @@ def run(ctx):
         '(stream, system, mode). Engine A-mini outcomes are counted per '
         'distinct verdict.')
     rep.notes['bounds'] = {
-        'systems': ALL + ['wrapper'],
+        'systems': ALL + ['wrapper', 'wrapper-short (the source answers a fixed-size read with the piece)'],
         'max_cuts': CAPS_THOROUGH if ctx.thorough else CAPS_QUICK,
         'all_positions_up_to_bytes': 1536 if ctx.thorough else 130,
         'streams': len(_IMAGES)}
@@ -678,8 +698,7 @@ def run(ctx):
 def replay(payload):
     from vlib.mc import stream as S
     if payload.get('isolation'):
-        system = (S.WrapperSystem() if payload['system'] == 'wrapper'
-                  else S.InspectorSystem(payload['system']))
+        system = S.make_system(payload['system'])
         da, db = unpack(payload['a']), unpack(payload['b'])
         ca, cb = payload['ca'], payload['cb']
         sa, sb = _solo(system, da, ca), _solo(system, db, cb)
@@ -694,13 +713,20 @@ def replay(payload):
         tv, tbad = S.typed_run(payload['system'], data, payload['cuts'], payload['chunk_kind'])
         return {'violates': repr(tv) != payload['expected'] or bool(tbad),
                 'verdict': repr(tv), 'expected': payload['expected'], 'region_problems': tbad[:3]}
+    if payload.get('kind') == 'T1x':
+        data = unpack(payload['image'])
+        ends = []
+        for name, key in (('wrapper', 'path_exact'), ('wrapper-short', 'path_short')):
+            obj, trace = S.replay_path(S.make_system(name), data, payload[key], queries=True)
+            last = trace[-1] if trace else {}
+            ends.append(repr(last.get('verdict', last.get('raised'))))
+        return {'violates': ends[0] != ends[1], 'exact_reads': ends[0], 'short_reads': ends[1]}
     if payload.get('mini'):
         system = MiniSystem()
         data = bytes.fromhex(payload['data_hex'])
     else:
         data = unpack(payload['image'])
-        system = (S.WrapperSystem() if payload['system'] == 'wrapper'
-                  else S.InspectorSystem(payload['system']))
+        system = S.make_system(payload['system'])
     obs = []
     bad_regions = impure = revised = False
     for path in payload['paths']:
